@@ -8,6 +8,7 @@ pub fn run(kind: &str, i: &Input) -> String {
     match kind {
         "vm_op" => vm_op(i),
         "asm_bytes" => asm_bytes(i),
+        "vm_prog" => vm_prog(i),
         "check_graph" => check_graph(i),
         "types_words" => types_words(i),
         "types_bytes" => types_bytes(i),
@@ -333,4 +334,36 @@ fn check_graph(i: &Input) -> String {
         Ok((gas, set)) => format!("result=ok\ngas={gas}\nmutations={}\n", set.solutions[0].state_mutations.len()),
         Err(e) => format!("result=err\nerr={}\n", format!("{e:?}").replace('\n', " ")),
     }
+}
+
+/// a whole program through Vm::exec_ops with a cost table keyed by Push immediates
+/// (`costs=imm:cost imm:cost ..`, `default_cost=`), total gas limit `limit=`
+fn vm_prog(i: &Input) -> String {
+    let ops = parse_ops(get(i, "ops"));
+    let mut table = std::collections::HashMap::new();
+    for kv in get(i, "costs").split_whitespace() {
+        let (k, v) = kv.split_once(':').unwrap();
+        table.insert(k.parse::<i64>().unwrap(), v.parse::<u64>().unwrap());
+    }
+    let default_cost: u64 = get(i, "default_cost").parse().unwrap_or(0);
+    let kind_cost: std::collections::HashMap<String, u64> = get(i, "kind_costs").split_whitespace().map(|kv| {
+        let (k, v) = kv.split_once('=').unwrap(); (k.to_string(), v.parse().unwrap()) }).collect();
+    let cost = move |op: &Op| -> u64 {
+        if let Op::Stack(asm::Stack::Push(x)) = op { if let Some(c) = table.get(x) { return *c; } }
+        let name = format!("{op:?}");
+        if let Some(c) = kind_cost.get(&name) { return *c; }
+        default_cost
+    };
+    let limit = GasLimit { per_yield: GasLimit::DEFAULT_PER_YIELD, total: get(i, "limit").parse().unwrap_or(u64::MAX) };
+    let mut vm = Vm::default();
+    vm.stack = Stack::try_from(words(get(i, "stack"))).unwrap();
+    vm.memory = Memory::try_from(words(get(i, "memory"))).unwrap();
+    let r = vm.exec_ops(&ops, test_access(), &NoState, &cost, limit);
+    let mut out = String::new();
+    match r {
+        Ok(g) => out += &format!("result=ok\ngas={g}\n"),
+        Err(e) => out += &format!("result=err\nerr_index={}\nerr={}\n", e.0, format!("{:?}", e.1).replace('\n', " ")),
+    }
+    out += &format!("stack={}\nmemory={}\npc={}\nhalt={}\n", fmt_words(&vm.stack), fmt_words(&vm.memory), vm.pc, vm.halt);
+    out
 }
